@@ -7,6 +7,20 @@ HERE = os.path.dirname(os.path.dirname(os.path.abspath(__file__)))
 
 # id -> (category, technique, text, note, design_ref)
 CHECKS = {
+    "C12": (
+        "fault_enumeration",
+        "exhaustive fault enumeration (every truncation offset, every single-record corruption position) x delay-bounded exploration of all schedules of the multi-core runner",
+        "A 6-record FASTQ is truncated at EVERY byte offset (plain) and at every byte of its gzip stream, 9 single-record corruptions are "
+        "applied at the first/middle/last record, and 14 paired-end/interleaved faults (missing mates, mismatching names, empty file) are "
+        "built. Each fault runs with one core through cli.main and with 2-3 workers on the virtual multiprocessing layer under every "
+        "schedule with <= 1 (thorough 2) deviations, pipe capacity unbounded and 1, plus real OS processes with a time-out. Oracle: a "
+        "strict independent FASTQ/gzip reader decides well-formedness; malformed => non-zero exit + message + termination (no deadlock "
+        "state, no horizon); exit 0 => well-formed and every record present; outputs always parse completely and are a prefix of the "
+        "processed good records.",
+        "Trusted: virtual primitive semantics (recv without EOF), strict reader, Python gzip/zlib as the compression oracle. An uncaught "
+        "exception (traceback, non-zero exit) counts as a visible failure.",
+        "DESIGN.md section 3, C12",
+    ),
     "C06": (
         "model_checking",
         "stateless model checking of the real multi-core runner under a virtual scheduler: delay-bounded (D(d)) and exact-state-matching (S) exploration of all pipe/queue interleavings",
